@@ -42,7 +42,8 @@ def gradientViolations (g : Node) : List String :=
   (coords.filterMap (fun k => match g.getAttr k with
     | some v => if numeric v then none else some ("gradient coordinate " ++ k ++ " is not a plain number: " ++ v)
     | none => none)) ++
-  (if (g.children.filter isLxmlNode).all (fun c => isSvgElem c "stop") then [] else ["gradient child that is not a stop"])
+  (if (g.children.filter isLxmlNode).all (fun c => isSvgElem c "stop") then [] else ["gradient child that is not a stop"]) ++
+  (if (g.children.filter isLxmlNode).all (fun c => (c.children.filter isLxmlNode).isEmpty) then [] else ["stop with child nodes"])
 
 def textTags : List String := ["text", "tspan", "textPath"]
 
